@@ -666,7 +666,20 @@ func (g *Gen) applyContract(st *State, a contractApp) Val {
 	}
 	ectx := &specCtx{g: g, st: st, old: pre, binds: a.binds, results: results, resultNames: a.resultNames, calleeOnly: !a.ownNames || a.extra != nil, oldIsPre: true, pkg: a.pkg}
 	for _, c := range a.ensures {
-		g.assume(st, g.evalAssume(ectx, c.E))
+		// a postcondition that mentions locals of the callee (checked inside the callee only) cannot be used at a
+		// call site: it is left out there, which is sound (one assumption fewer) and noted
+		func() {
+			defer func() {
+				if r := recover(); r != nil {
+					if u, ok := r.(unsupportedErr); ok && !a.ownNames && strings.Contains(u.msg, "unknown identifier") {
+						g.note("call", "postcondition of "+a.what+" not used at this call site (it mentions the callee's locals): "+c.Src)
+						return
+					}
+					panic(r)
+				}
+			}()
+			g.assume(st, g.evalAssume(ectx, c.E))
+		}()
 	}
 	if a.extra != nil {
 		xe := &specCtx{g: g, st: st, old: pre, binds: a.xbinds, results: results, resultNames: xNames, oldIsPre: true}
